@@ -672,7 +672,12 @@ pub const fn is_gregorian_valid(
         && day == usual_days_per_month(month)
         && hour == 23
         && minute == 59
-        && ((month == 6 && july_years(year)) || (month == 12 && january_years(year + 1)))
+        && ((month == 6 && july_years(year))
+            || (month == 12
+                && match year.checked_add(1) {
+                    Some(next_year) => january_years(next_year),
+                    None => false,
+                }))
     {
         60
     } else {
